@@ -1,5 +1,36 @@
 package main
 
+// Replay of a solver counterexample against the real code (DESIGN.md 5).
+//
+// For a failed obligation with a model, the entry state of the unit (parameters and every
+// heap object reachable from them) is read out of ONE solver model through an interactive
+// solver session, turned into Go source that builds the same object graph, and injected as an
+// in-package test with `go test -overlay` (nothing is written into the repository). The test
+// calls the real function and evaluates the violated clause, translated from the same contract
+// AST into Go. Only a replay that observes the violation on the real code makes the VIOLATION
+// line drop its "no-failing-input-found" suffix; anything the translator cannot express is
+// reported as not-attempted with the reason.
+
+import (
+	"bufio"
+	"context"
+	"encoding/json"
+	"fmt"
+	"go/ast"
+	"go/types"
+	"io"
+	"os"
+	"os/exec"
+	"path/filepath"
+	"regexp"
+	"sort"
+	"strconv"
+	"strings"
+	"time"
+
+	"golang.org/x/tools/go/ssa"
+)
+
 type ReplayResult struct {
 	Status   string `json:"status"` // confirmed | not-reproduced | not-attempted
 	Reason   string `json:"reason,omitempty"`
@@ -8,6 +39,978 @@ type ReplayResult struct {
 	Output   string `json:"output,omitempty"`
 }
 
-func Replay(g *Gen, r *UnitResult, ob *Obligation, cfg SolverCfg, dir string) ReplayResult {
-	return ReplayResult{Status: "not-attempted", Reason: "replay generator does not cover this unit yet"}
+type replayFail struct{ msg string }
+
+func rfail(format string, a ...any) { panic(replayFail{fmt.Sprintf(format, a...)}) }
+
+// ---------------------------------------------------------------------------
+// interactive solver session
+
+type session struct {
+	cmd    *exec.Cmd
+	in     io.WriteCloser
+	out    *bufio.Reader
+	cancel context.CancelFunc
 }
+
+func startSession(query string, ms int) (*session, string, error) {
+	ctx, cancel := context.WithTimeout(context.Background(), time.Duration(ms+60000)*time.Millisecond)
+	cmd := exec.CommandContext(ctx, "z3-new", "-in", fmt.Sprintf("-t:%d", ms))
+	in, err := cmd.StdinPipe()
+	if err != nil {
+		cancel()
+		return nil, "", err
+	}
+	outp, err := cmd.StdoutPipe()
+	if err != nil {
+		cancel()
+		return nil, "", err
+	}
+	cmd.Stderr = cmd.Stdout
+	if err := cmd.Start(); err != nil {
+		cancel()
+		return nil, "", err
+	}
+	s := &session{cmd: cmd, in: in, out: bufio.NewReaderSize(outp, 1<<20), cancel: cancel}
+	// drop everything from the first check-sat on: the session issues its own
+	if i := strings.Index(query, "(check-sat)"); i >= 0 {
+		query = query[:i]
+	}
+	io.WriteString(in, query+"\n(check-sat)\n")
+	line, err := s.out.ReadString('\n')
+	if err != nil {
+		s.close()
+		return nil, "", err
+	}
+	return s, strings.TrimSpace(line), nil
+}
+
+func (s *session) close() {
+	io.WriteString(s.in, "(exit)\n")
+	s.in.Close()
+	s.cancel()
+	s.cmd.Wait()
+}
+
+// eval returns the model value of a term of scalar sort (Int, Bool, Str, or a datatype printed on one value).
+func (s *session) eval(term string) string {
+	io.WriteString(s.in, "(get-value ("+term+"))\n")
+	// read one balanced s-expression
+	var b strings.Builder
+	depth, started := 0, false
+	for {
+		r, _, err := s.out.ReadRune()
+		if err != nil {
+			rfail("solver session ended while evaluating %s", trunc(term, 80))
+		}
+		if r == '(' {
+			depth++
+			started = true
+		}
+		if started {
+			b.WriteRune(r)
+		}
+		if r == ')' {
+			depth--
+			if started && depth == 0 {
+				break
+			}
+		}
+	}
+	txt := strings.TrimSpace(b.String())
+	if strings.HasPrefix(txt, "(error") {
+		rfail("solver could not evaluate %s: %s", trunc(term, 80), trunc(txt, 120))
+	}
+	// ((term value)) -> value: the value is the last top-level s-expression inside the inner pair
+	inner := strings.TrimSpace(txt[1 : len(txt)-1])
+	inner = strings.TrimSpace(inner[1 : len(inner)-1])
+	// skip the echoed term
+	first := firstSexp(inner)
+	return strings.TrimSpace(inner[len(first):])
+}
+
+func (s *session) evalInt(term string) int64 {
+	v := s.eval(term)
+	v = strings.ReplaceAll(v, " ", "")
+	neg := false
+	if strings.HasPrefix(v, "(-") {
+		neg = true
+		v = strings.TrimSuffix(strings.TrimPrefix(v, "(-"), ")")
+	}
+	n, err := strconv.ParseInt(v, 10, 64)
+	if err != nil {
+		// values beyond int64 (uint64 range): keep what fits
+		u, err2 := strconv.ParseUint(v, 10, 64)
+		if err2 != nil {
+			rfail("model value %s of %s is not a machine integer", v, trunc(term, 60))
+		}
+		return int64(u)
+	}
+	if neg {
+		return -n
+	}
+	return n
+}
+
+func (s *session) evalBig(term string) string {
+	v := strings.ReplaceAll(s.eval(term), " ", "")
+	if strings.HasPrefix(v, "(-") {
+		return "-" + strings.TrimSuffix(strings.TrimPrefix(v, "(-"), ")")
+	}
+	return v
+}
+
+func (s *session) evalBool(term string) bool { return s.eval(term) == "true" }
+
+// ---------------------------------------------------------------------------
+// object-graph builder
+
+type rbuilder struct {
+	g       *Gen
+	r       *UnitResult
+	s       *session
+	fn      *ssa.Function
+	pkg     *types.Package
+	declared map[string]bool // SMT constants available in the query
+	imports map[string]string // import path -> alias
+	objs    map[string]string // type#ref -> Go variable
+	stmts   []string
+	strs    map[string]string // abstract string value -> Go literal
+	lits    map[string]string // abstract string value -> literal text, for values equal to a source literal
+	nvar    int
+	nobj    int
+	candStr []string // string-sorted terms seen (candidate map keys)
+	candInt []string
+	chans   []string // "var|elemType" of channels created
+	summary map[string]any
+}
+
+func (b *rbuilder) alias(path, name string) string {
+	if path == b.pkg.Path() {
+		return ""
+	}
+	if a, ok := b.imports[path]; ok {
+		return a
+	}
+	a := fmt.Sprintf("vr%s%d", sanitizeIdent(name), len(b.imports))
+	b.imports[path] = a
+	return a
+}
+
+func sanitizeIdent(s string) string {
+	var o strings.Builder
+	for _, c := range s {
+		if c >= 'a' && c <= 'z' || c >= 'A' && c <= 'Z' {
+			o.WriteRune(c)
+		}
+	}
+	return o.String()
+}
+
+func (b *rbuilder) typeStr(t types.Type) string {
+	return types.TypeString(t, func(p *types.Package) string { return b.alias(p.Path(), p.Name()) })
+}
+
+func (b *rbuilder) newVar() string {
+	b.nvar++
+	return fmt.Sprintf("v%d", b.nvar)
+}
+
+func (b *rbuilder) hasConst(name string) bool { return b.declared[name] }
+
+// goString maps an abstract string value of the model to a concrete Go string: the source
+// literal it equals, or a fresh string of the model's length (distinct values stay distinct).
+func (b *rbuilder) goString(term string) string {
+	val := b.s.eval(term)
+	if lit, ok := b.lits[val]; ok {
+		return strconv.Quote(lit)
+	}
+	if g, ok := b.strs[val]; ok {
+		return g
+	}
+	n := b.s.evalInt("(strlen " + term + ")")
+	if n < 0 {
+		n = 0
+	}
+	if n > 64 {
+		rfail("model string of length %d", n)
+	}
+	id := len(b.strs)
+	base := fmt.Sprintf("%c%d", 'a'+rune(id%26), id)
+	var sv string
+	switch {
+	case n == 0:
+		sv = ""
+	case int(n) <= len(base):
+		sv = base[:n]
+		// keep one-character strings distinct
+		if n == 1 {
+			sv = string(rune('a' + id%26))
+		}
+	default:
+		sv = base + strings.Repeat("x", int(n)-len(base))
+	}
+	q := strconv.Quote(sv)
+	b.strs[val] = q
+	return q
+}
+
+func (b *rbuilder) value(term string, t types.Type, depth int) string {
+	if depth > 8 {
+		rfail("object graph deeper than 8")
+	}
+	t = types.Unalias(t)
+	if isOpaqueStruct(t) {
+		rfail("opaque struct value %s", t)
+	}
+	switch u := t.Underlying().(type) {
+	case *types.Basic:
+		switch {
+		case u.Info()&types.IsBoolean != 0:
+			if b.s.evalBool(term) {
+				return "true"
+			}
+			return "false"
+		case u.Info()&types.IsInteger != 0:
+			v := b.s.evalBig(term)
+			b.candInt = append(b.candInt, v)
+			return fmt.Sprintf("%s(%s)", b.typeStr(t), v)
+		case u.Info()&types.IsString != 0:
+			b.candStr = append(b.candStr, term)
+			g := b.goString(term)
+			if _, named := t.(*types.Named); named {
+				return fmt.Sprintf("%s(%s)", b.typeStr(t), g)
+			}
+			return g
+		}
+		rfail("basic type %s", t)
+	case *types.Pointer:
+		ref := b.s.evalInt(term)
+		if ref == 0 {
+			return "nil"
+		}
+		return b.object(ref, u.Elem(), depth)
+	case *types.Map:
+		ref := b.s.evalInt(term)
+		if ref == 0 {
+			return "nil"
+		}
+		return b.mapValue(ref, t, u, depth)
+	case *types.Slice:
+		so := string(b.r.reg.SortOf(t))
+		n := b.s.evalInt(fmt.Sprintf("(len_%s %s)", so, term))
+		if n == 0 {
+			return "nil"
+		}
+		if n > 16 {
+			rfail("model slice of length %d", n)
+		}
+		var els []string
+		for i := int64(0); i < n; i++ {
+			els = append(els, b.value(fmt.Sprintf("(select (data_%s %s) %d)", so, term, i), u.Elem(), depth+1))
+		}
+		return fmt.Sprintf("%s{%s}", b.typeStr(t), strings.Join(els, ", "))
+	case *types.Interface:
+		tag := b.s.evalInt("(itag " + term + ")")
+		if tag == 0 {
+			return "nil"
+		}
+		if int(tag) >= len(b.r.reg.tagTypes) || b.r.reg.tagTypes[tag] == nil {
+			rfail("interface value of a dynamic type the verifier does not name (tag %d)", tag)
+		}
+		dt := b.r.reg.tagTypes[tag]
+		pay := b.s.evalBig("(ipay " + term + ")")
+		if _, isPtr := dt.Underlying().(*types.Pointer); isPtr {
+			return b.value(pay, dt, depth+1)
+		}
+		if bt, ok := dt.Underlying().(*types.Basic); ok && bt.Info()&types.IsInteger != 0 {
+			return fmt.Sprintf("%s(%s)", b.typeStr(dt), pay)
+		}
+		rfail("interface value of dynamic type %s", dt)
+	case *types.Chan:
+		v := b.newVar()
+		b.stmts = append(b.stmts, fmt.Sprintf("%s := make(chan %s, 1024)", v, b.typeStr(u.Elem())))
+		b.chans = append(b.chans, v+"|"+b.typeStr(u.Elem())+"|"+term)
+		return v
+	case *types.Struct:
+		rfail("struct passed by value (%s)", t)
+	case *types.Signature:
+		rfail("function-typed input")
+	}
+	rfail("input of type %s", t)
+	return ""
+}
+
+func (b *rbuilder) object(ref int64, elem types.Type, depth int) string {
+	key := fmt.Sprintf("%s#%d", elem.String(), ref)
+	if v, ok := b.objs[key]; ok {
+		return v
+	}
+	b.nobj++
+	if b.nobj > 60 {
+		rfail("object graph larger than 60 objects")
+	}
+	v := b.newVar()
+	b.objs[key] = v
+	st, ok := elem.Underlying().(*types.Struct)
+	if !ok {
+		// pointer to a scalar cell (e.g. *string in ygot structs)
+		cell := "C_" + shortTypeName(elem) + "@0"
+		b.stmts = append(b.stmts, fmt.Sprintf("%s := new(%s)", v, b.typeStr(elem)))
+		if b.hasConst(cell) {
+			b.stmts = append(b.stmts, fmt.Sprintf("*%s = %s", v, b.value(fmt.Sprintf("(select %s %d)", cell, ref), elem, depth+1)))
+		}
+		return v
+	}
+	b.stmts = append(b.stmts, fmt.Sprintf("%s := new(%s)", v, b.typeStr(elem)))
+	samePkg := false
+	if n, ok := types.Unalias(elem).(*types.Named); ok && n.Obj().Pkg() != nil && n.Obj().Pkg().Path() == b.pkg.Path() {
+		samePkg = true
+	}
+	fields := map[string]any{}
+	for i := 0; i < st.NumFields(); i++ {
+		f := st.Field(i)
+		if !f.Exported() && !samePkg {
+			continue
+		}
+		if isOpaqueStruct(f.Type()) {
+			continue // mutexes, atomics, protobuf bookkeeping: zero value
+		}
+		if _, isStruct := f.Type().Underlying().(*types.Struct); isStruct {
+			continue
+		}
+		arr := "H_" + shortTypeName(elem) + "_" + f.Name() + "@0"
+		if !b.hasConst(arr) {
+			continue // never read by the unit: the zero value will do
+		}
+		if _, isFn := f.Type().Underlying().(*types.Signature); isFn {
+			continue
+		}
+		gv := b.value(fmt.Sprintf("(select %s %d)", arr, ref), f.Type(), depth+1)
+		if gv == "nil" || gv == "false" || gv == `""` {
+			continue
+		}
+		b.stmts = append(b.stmts, fmt.Sprintf("%s.%s = %s", v, f.Name(), gv))
+		fields[f.Name()] = gv
+	}
+	b.summary[v+" "+b.typeStr(elem)] = fields
+	return v
+}
+
+func (b *rbuilder) mapValue(ref int64, t types.Type, m *types.Map, depth int) string {
+	key := fmt.Sprintf("%s#%d", t.String(), ref)
+	if v, ok := b.objs[key]; ok {
+		return v
+	}
+	v := b.newVar()
+	b.objs[key] = v
+	b.stmts = append(b.stmts, fmt.Sprintf("%s := %s{}", v, b.typeStr(t)))
+	n := shortTypeName(t.Underlying())
+	dom, val := "MD_"+n+"@0", "MV_"+n+"@0"
+	if !b.hasConst(dom) {
+		return v
+	}
+	var cands []string
+	switch kb := m.Key().Underlying().(type) {
+	case *types.Basic:
+		if kb.Info()&types.IsString != 0 {
+			cands = append(cands, b.candStr...)
+			for _, name := range b.strNames() {
+				cands = append(cands, name)
+			}
+		} else if kb.Info()&types.IsInteger != 0 {
+			cands = append(cands, b.candInt...)
+		}
+	default:
+		return v // keys of other types: leave the map empty (reported in the summary)
+	}
+	seen := map[string]bool{}
+	entries := map[string]any{}
+	for _, c := range cands {
+		if len(seen) > 12 {
+			break
+		}
+		if !b.s.evalBool(fmt.Sprintf("(select (select %s %d) %s)", dom, ref, c)) {
+			continue
+		}
+		kv := b.value(c, m.Key(), depth+1)
+		if seen[kv] {
+			continue
+		}
+		seen[kv] = true
+		if b.hasConst(val) {
+			ev := b.value(fmt.Sprintf("(select (select %s %d) %s)", val, ref, c), m.Elem(), depth+1)
+			b.stmts = append(b.stmts, fmt.Sprintf("%s[%s] = %s", v, kv, ev))
+			entries[kv] = ev
+		} else {
+			b.stmts = append(b.stmts, fmt.Sprintf("%s[%s] = *new(%s)", v, kv, b.typeStr(m.Elem())))
+			entries[kv] = "zero"
+		}
+	}
+	b.summary[v+" "+b.typeStr(t)] = entries
+	return v
+}
+
+func (b *rbuilder) strNames() []string {
+	var out []string
+	for _, n := range b.r.reg.strLits {
+		out = append(out, n)
+	}
+	sort.Strings(out)
+	return out
+}
+
+// ---------------------------------------------------------------------------
+// contract expression -> Go
+
+type goTr struct {
+	b       *rbuilder
+	g       *Gen
+	env     map[string]string // DSL identifier -> Go expression
+	olds    []string          // statements computing old(...) snapshots before the call
+	nold    int
+	pkgPath string
+	inOld   bool
+}
+
+var cmpOps = map[string]bool{"==": true, "!=": true, "<": true, "<=": true, ">": true, ">=": true}
+
+func (t *goTr) isBig(e Expr) bool {
+	switch x := e.(type) {
+	case *ECall:
+		if id, ok := x.Fun.(*EIdent); ok {
+			if id.Name == "u128" {
+				return true
+			}
+			if p, ok := t.g.specs.Preds[id.Name]; ok {
+				return t.isBig(p.Body)
+			}
+			if id.Name == "ite" && len(x.Args) == 3 {
+				return t.isBig(x.Args[1]) || t.isBig(x.Args[2])
+			}
+		}
+	case *EOld:
+		return t.isBig(x.X)
+	}
+	return false
+}
+
+func (t *goTr) big(e Expr) string {
+	if t.isBig(e) {
+		return t.tr(e)
+	}
+	return "vrBig(uint64(" + t.tr(e) + "))"
+}
+
+func (t *goTr) tr(e Expr) string {
+	switch x := e.(type) {
+	case *ELit:
+		return x.exprString()
+	case *EIdent:
+		if v, ok := t.env[x.Name]; ok {
+			return v
+		}
+		switch x.Name {
+		case "true", "false", "nil":
+			return x.Name
+		}
+		if _, ghost := t.g.specs.GhostVars[x.Name]; ghost {
+			rfail("clause mentions ghost state %s", x.Name)
+		}
+		if _, region := t.g.specs.Regions[x.Name]; region {
+			rfail("clause mentions the abstract region %s", x.Name)
+		}
+		return x.Name // package-level name or import alias
+	case *ESel:
+		return t.tr(x.X) + "." + x.Name
+	case *EIndex:
+		return t.tr(x.X) + "[" + t.tr(x.I) + "]"
+	case *EUnary:
+		return "(" + x.Op + t.tr(x.X) + ")"
+	case *EOld:
+		if t.inOld {
+			return t.tr(x.X)
+		}
+		// old(len(sent(ch))) and old(sent(ch)...) : the channels are created empty by the harness
+		t.inOld = true
+		inner := t.tr(x.X)
+		t.inOld = false
+		t.nold++
+		v := fmt.Sprintf("vrOld%d", t.nold)
+		t.olds = append(t.olds, fmt.Sprintf("%s := %s", v, inner))
+		return v
+	case *ETypeIs:
+		return t.tr(x.X) + ".(" + x.Type + ")"
+	case *EBinary:
+		switch x.Op {
+		case "==>":
+			return "(!(" + t.tr(x.X) + ") || (" + t.tr(x.Y) + "))"
+		case "<==>":
+			return "((" + t.tr(x.X) + ") == (" + t.tr(x.Y) + "))"
+		case "in":
+			if c, ok := x.Y.(*ECall); ok {
+				if id, ok := c.Fun.(*EIdent); ok && id.Name == "dom" {
+					return "vrHas(" + t.tr(c.Args[0]) + ", " + t.tr(x.X) + ")"
+				}
+			}
+			if o, ok := x.Y.(*EOld); ok {
+				// k in old(dom(m)): snapshot of the key set
+				if c, ok := o.X.(*ECall); ok {
+					if id, ok := c.Fun.(*EIdent); ok && id.Name == "dom" && !t.inOld {
+						t.nold++
+						v := fmt.Sprintf("vrOld%d", t.nold)
+						t.inOld = true
+						m := t.tr(c.Args[0])
+						t.inOld = false
+						t.olds = append(t.olds, fmt.Sprintf("%s := vrKeys(%s)", v, m))
+						return "vrHas(" + v + ", " + t.tr(x.X) + ")"
+					}
+				}
+			}
+			rfail("set membership in %s", x.Y.exprString())
+		}
+		if cmpOps[x.Op] && (t.isBig(x.X) || t.isBig(x.Y)) {
+			return fmt.Sprintf("(%s.Cmp(%s) %s 0)", t.big(x.X), t.big(x.Y), x.Op)
+		}
+		if cmpOps[x.Op] {
+			// comparisons with nil of interface-held pointers work as in Go
+			return "(" + t.tr(x.X) + " " + x.Op + " " + t.tr(x.Y) + ")"
+		}
+		switch x.Op {
+		case "&&", "||", "+", "-", "*", "/", "%":
+			return "(" + t.tr(x.X) + " " + x.Op + " " + t.tr(x.Y) + ")"
+		}
+		rfail("operator %s", x.Op)
+	case *EQuant:
+		return t.quant(x, 0)
+	case *ECall:
+		return t.call(x)
+	}
+	rfail("expression %s", e.exprString())
+	return ""
+}
+
+func (t *goTr) quant(q *EQuant, i int) string {
+	if i == len(q.Binders) {
+		return t.tr(q.Body)
+	}
+	bd := q.Binders[i]
+	saved, had := t.env[bd.Name]
+	gv := "q" + bd.Name
+	t.env[bd.Name] = gv
+	defer func() {
+		if had {
+			t.env[bd.Name] = saved
+		} else {
+			delete(t.env, bd.Name)
+		}
+	}()
+	hit, miss := "false", "true"
+	neg := "!"
+	if !q.Forall {
+		hit, miss = "true", "false"
+		neg = ""
+	}
+	switch bd.Kind {
+	case "range":
+		lo, hi := t.tr(bd.A), t.tr(bd.B)
+		body := t.quant(q, i+1)
+		return fmt.Sprintf("func() bool { for %s := int(%s); %s < int(%s); %s++ { if %s(%s) { return %s } }; return %s }()", gv, lo, gv, hi, gv, neg, body, hit, miss)
+	case "dom":
+		m := t.tr(bd.A)
+		body := t.quant(q, i+1)
+		return fmt.Sprintf("func() bool { for %s := range %s { if %s(%s) { return %s } }; return %s }()", gv, m, neg, body, hit, miss)
+	}
+	rfail("quantifier over %s", bd.Kind)
+	return ""
+}
+
+func (t *goTr) call(x *ECall) string {
+	if sel, ok := x.Fun.(*ESel); ok {
+		// method call (generated getters): as in Go
+		var as []string
+		for _, a := range x.Args {
+			as = append(as, t.tr(a))
+		}
+		return t.tr(sel.X) + "." + sel.Name + "(" + strings.Join(as, ", ") + ")"
+	}
+	id, ok := x.Fun.(*EIdent)
+	if !ok {
+		rfail("call %s", x.exprString())
+	}
+	arg := func(i int) string { return t.tr(x.Args[i]) }
+	switch id.Name {
+	case "len":
+		if c, ok := x.Args[0].(*ECall); ok {
+			if cid, ok := c.Fun.(*EIdent); ok && cid.Name == "sent" && t.inOld {
+				return "0"
+			}
+		}
+		return "len(" + arg(0) + ")"
+	case "u128":
+		return "vrU128(uint64(" + arg(0) + "), uint64(" + arg(1) + "))"
+	case "fresh", "allocated":
+		return "true"
+	case "ite":
+		if t.isBig(x) {
+			return "vrIteBig(" + arg(0) + ", " + t.big(x.Args[1]) + ", " + t.big(x.Args[2]) + ")"
+		}
+		return "vrIte(" + arg(0) + ", " + arg(1) + ", " + arg(2) + ")"
+	case "errCode":
+		t.b.alias("google.golang.org/grpc/status", "status")
+		return t.b.imports["google.golang.org/grpc/status"] + ".Code(" + arg(0) + ")"
+	case "errDetail":
+		t.b.alias("google.golang.org/grpc/status", "status")
+		return "vrErrDetail(" + arg(0) + ")"
+	case "istype":
+		ty, ok := x.Args[1].(*EIdent)
+		tyS := ""
+		if ok {
+			tyS = ty.Name
+		} else {
+			tyS = x.Args[1].exprString()
+		}
+		return "func() bool { _, ok := any(" + arg(0) + ").(" + tyS + "); return ok }()"
+	case "tagof":
+		return "vrTag(" + arg(0) + ")"
+	case "sent":
+		for _, c := range t.b.chans {
+			p := strings.Split(c, "|")
+			if p[0] == arg(0) {
+				return "vrSent_" + p[0]
+			}
+		}
+		rfail("sent() of a channel the harness did not create")
+	case "int":
+		return "int(" + arg(0) + ")"
+	}
+	if p, ok := t.g.specs.Preds[id.Name]; ok {
+		if len(p.Params) != len(x.Args) {
+			rfail("pred %s arity", id.Name)
+		}
+		saved := map[string]*string{}
+		for _, prm := range p.Params {
+			if v, had := t.env[prm.Name]; had {
+				vv := v
+				saved[prm.Name] = &vv
+			} else {
+				saved[prm.Name] = nil
+			}
+		}
+		vals := make([]string, len(x.Args))
+		for i := range x.Args {
+			vals[i] = "(" + t.tr(x.Args[i]) + ")"
+		}
+		for i, prm := range p.Params {
+			t.env[prm.Name] = vals[i]
+		}
+		out := "(" + t.tr(p.Body) + ")"
+		for n, v := range saved {
+			if v == nil {
+				delete(t.env, n)
+			} else {
+				t.env[n] = *v
+			}
+		}
+		return out
+	}
+	rfail("contract function %s has no executable counterpart", id.Name)
+	return ""
+}
+
+// ---------------------------------------------------------------------------
+
+const replayHelpers = `
+func vrBig(x uint64) *big.Int { return new(big.Int).SetUint64(x) }
+func vrU128(h, l uint64) *big.Int {
+	r := new(big.Int).SetUint64(h)
+	r.Lsh(r, 64)
+	return r.Add(r, new(big.Int).SetUint64(l))
+}
+func vrIteBig(c bool, a, b *big.Int) *big.Int {
+	if c {
+		return a
+	}
+	return b
+}
+func vrIte[T any](c bool, a, b T) T {
+	if c {
+		return a
+	}
+	return b
+}
+func vrHas[K comparable, V any](m map[K]V, k K) bool { _, ok := m[k]; return ok }
+func vrKeys[K comparable, V any](m map[K]V) map[K]bool {
+	r := map[K]bool{}
+	for k := range m {
+		r[k] = true
+	}
+	return r
+}
+func vrTag(x any) int {
+	if x == nil {
+		return 0
+	}
+	return 1
+}
+`
+
+const replayErrDetail = `
+func vrErrDetail(e error) any {
+	if e == nil {
+		return nil
+	}
+	ds := STATUS.Convert(e).Details()
+	if len(ds) == 0 {
+		return nil
+	}
+	return ds[0]
+}
+`
+
+// Replay turns the model of a failed obligation into a test of the real code.
+func Replay(g *Gen, r *UnitResult, ob *Obligation, cfg SolverCfg, dir string) (res ReplayResult) {
+	defer func() {
+		if x := recover(); x != nil {
+			if f, ok := x.(replayFail); ok {
+				res = ReplayResult{Status: "not-attempted", Reason: f.msg}
+				return
+			}
+			res = ReplayResult{Status: "not-attempted", Reason: fmt.Sprintf("internal error of the replay generator: %v", x)}
+		}
+	}()
+	if os.Getenv("GOVC_NOREPLAY") != "" {
+		return ReplayResult{Status: "not-attempted", Reason: "replay disabled (GOVC_NOREPLAY)"}
+	}
+	ct := r.ct
+	fn := g.findFunc(ct.Pkg, ct.Func)
+	if fn == nil || strings.Contains(ct.Func, "$") || len(fn.TypeArgs()) > 0 || fn.TypeParams().Len() > 0 {
+		return ReplayResult{Status: "not-attempted", Reason: "closures and generic instances are not replayed"}
+	}
+	var clause Expr
+	switch ob.Kind {
+	case "ensures":
+		for i, c := range ct.Ensures {
+			lbl := c.Label
+			if lbl == "" {
+				lbl = fmt.Sprint(i + 1)
+			}
+			if ob.Name == "ensures#"+lbl {
+				clause = c.E
+			}
+		}
+		if clause == nil {
+			return ReplayResult{Status: "not-attempted", Reason: "clause of the obligation not found"}
+		}
+	case "safety":
+	default:
+		return ReplayResult{Status: "not-attempted", Reason: "only postconditions and panic-freedom obligations are replayed (this one is checked at an intermediate program point: " + ob.Kind + ")"}
+	}
+	q := r.QueryFor(ob, false)
+	s, first, err := startSession(q, 20000)
+	if err != nil {
+		return ReplayResult{Status: "not-attempted", Reason: "solver session: " + err.Error()}
+	}
+	defer s.close()
+	if first != "sat" {
+		return ReplayResult{Status: "not-attempted", Reason: "z3 5.1.0 did not reproduce the model interactively (answered " + first + ")"}
+	}
+	b := &rbuilder{g: g, r: r, s: s, fn: fn, pkg: fn.Pkg.Pkg, declared: map[string]bool{}, imports: map[string]string{}, objs: map[string]string{},
+		strs: map[string]string{}, lits: map[string]string{}, summary: map[string]any{}}
+	for _, e := range r.initEv {
+		if e.Kind == EvConst {
+			b.declared[e.Name] = true
+		}
+	}
+	// abstract values of the source literals
+	b.lits[s.eval("str_empty")] = ""
+	for lit, name := range r.reg.strLits {
+		b.lits[s.eval(name)] = lit
+	}
+	// arguments
+	var args []string
+	env := map[string]string{}
+	sig := fn.Signature
+	for i, p := range fn.Params {
+		var term string
+		for _, in := range ob.Inputs {
+			if in.Name == p.Name() {
+				term = in.Term.S
+			}
+		}
+		if term == "" {
+			rfail("no model term for parameter %s", p.Name())
+		}
+		if named, ok := types.Unalias(p.Type()).(*types.Named); ok && named.Obj().Pkg() != nil && named.Obj().Pkg().Path() == "testing" {
+			rfail("testing.TB parameter")
+		}
+		gv := b.value(term, p.Type(), 0)
+		v := fmt.Sprintf("a%d", i)
+		b.stmts = append(b.stmts, fmt.Sprintf("var %s %s = %s", v, b.typeStr(p.Type()), gv))
+		b.stmts = append(b.stmts, "_ = "+v)
+		args = append(args, v)
+		env[p.Name()] = v
+		b.summary["arg "+p.Name()] = gv
+	}
+	// the call
+	nres := sig.Results().Len()
+	var rv []string
+	for i := 0; i < nres; i++ {
+		rv = append(rv, fmt.Sprintf("r%d", i))
+		env[fmt.Sprintf("result%d", i)] = fmt.Sprintf("r%d", i)
+	}
+	if nres > 0 {
+		env["result"] = "r0"
+	}
+	var call string
+	if sig.Recv() != nil {
+		call = fmt.Sprintf("%s.%s(%s)", args[0], fn.Name(), strings.Join(args[1:], ", "))
+	} else {
+		call = fmt.Sprintf("%s(%s)", fn.Name(), strings.Join(args, ", "))
+	}
+	if sig.Variadic() && len(args) > 0 {
+		call = strings.TrimSuffix(call, ")") + "...)"
+	}
+	// oracle
+	tr := &goTr{b: b, g: g, env: env, pkgPath: ct.Pkg}
+	oracle := "true"
+	if clause != nil {
+		oracle = tr.tr(clause)
+	}
+	// assemble the test file
+	var src strings.Builder
+	fmt.Fprintf(&src, "package %s\n\nimport (\n\t\"math/big\"\n\t\"testing\"\n", fn.Pkg.Pkg.Name())
+	// imports of the package's own files (aliases used inside contract text) plus generated ones
+	used := oracle + strings.Join(tr.olds, "\n")
+	fileImports := map[string]string{}
+	if p := g.pkgs[ct.Pkg]; p != nil {
+		for _, f := range p.Syntax {
+			for _, im := range f.Imports {
+				path, _ := strconv.Unquote(im.Path.Value)
+				name := ""
+				if im.Name != nil {
+					name = im.Name.Name
+				} else if ip := p.Imports[path]; ip != nil {
+					name = ip.Name
+				}
+				if name != "" && name != "_" && name != "." {
+					fileImports[name] = path
+				}
+			}
+		}
+	}
+	var names []string
+	for n := range fileImports {
+		names = append(names, n)
+	}
+	sort.Strings(names)
+	for _, n := range names {
+		if n == "big" || n == "testing" {
+			continue
+		}
+		if regexp.MustCompile(`\b` + regexp.QuoteMeta(n) + `\.`).MatchString(used) {
+			fmt.Fprintf(&src, "\t%s %q\n", n, fileImports[n])
+		}
+	}
+	var ips []string
+	for p := range b.imports {
+		ips = append(ips, p)
+	}
+	sort.Strings(ips)
+	for _, p := range ips {
+		fmt.Fprintf(&src, "\t%s %q\n", b.imports[p], p)
+	}
+	src.WriteString(")\n\nvar _ = big.NewInt\n")
+	src.WriteString(replayHelpers)
+	if a, ok := b.imports["google.golang.org/grpc/status"]; ok {
+		src.WriteString(strings.ReplaceAll(replayErrDetail, "STATUS", a))
+	}
+	src.WriteString("\nfunc TestVerifReplay(t *testing.T) {\n")
+	for _, st := range b.stmts {
+		src.WriteString("\t" + st + "\n")
+	}
+	for _, c := range b.chans {
+		p := strings.Split(c, "|")
+		fmt.Fprintf(&src, "\tvar vrSent_%s []%s\n\t_ = vrSent_%s\n", p[0], p[1], p[0])
+	}
+	for _, o := range tr.olds {
+		src.WriteString("\t" + o + "\n")
+		src.WriteString("\t_ = " + strings.SplitN(o, " ", 2)[0] + "\n")
+	}
+	src.WriteString("\tpanicked := true\n\tfunc() {\n\t\tdefer func() {\n\t\t\tif x := recover(); x != nil {\n\t\t\t\tt.Logf(\"REPLAY panic: %v\", x)\n\t\t\t}\n\t\t}()\n")
+	if nres > 0 {
+		for i := 0; i < nres; i++ {
+			fmt.Fprintf(&src, "\t\tvar %s %s\n\t\t_ = %s\n", rv[i], b.typeStr(sig.Results().At(i).Type()), rv[i])
+		}
+		fmt.Fprintf(&src, "\t\t%s = %s\n", strings.Join(rv, ", "), call)
+	} else {
+		fmt.Fprintf(&src, "\t\t%s\n", call)
+	}
+	src.WriteString("\t\tpanicked = false\n")
+	for _, c := range b.chans {
+		p := strings.Split(c, "|")
+		fmt.Fprintf(&src, "\t\tfor len(%s) > 0 {\n\t\t\tvrSent_%s = append(vrSent_%s, <-%s)\n\t\t}\n", p[0], p[0], p[0], p[0])
+	}
+	if ob.Kind == "ensures" {
+		fmt.Fprintf(&src, "\t\tif !(%s) {\n\t\t\tt.Logf(\"REPLAY clause violated\")\n\t\t\tt.Fail()\n\t\t}\n", oracle)
+		for i := 0; i < nres; i++ {
+			fmt.Fprintf(&src, "\t\tt.Logf(\"REPLAY result%d = %%v\", %s)\n", i, rv[i])
+		}
+	}
+	src.WriteString("\t}()\n\tif panicked {\n\t\tt.Logf(\"REPLAY the call panicked\")\n\t\tt.Fail()\n\t}\n}\n")
+
+	os.MkdirAll(dir, 0o755)
+	testFile := filepath.Join(dir, mangle(ob.FullName())+"_replay_test.go")
+	os.WriteFile(testFile, []byte(src.String()), 0o644)
+	res = ReplayResult{Status: "not-reproduced", Inputs: b.summary, TestFile: testFile}
+	out, ran := runReplayTest(g.repo, ct.Pkg, testFile)
+	res.Output = trunc2(out, 6000)
+	if !ran {
+		res.Status = "not-attempted"
+		res.Reason = "the generated test did not build or run (see output)"
+		return res
+	}
+	switch ob.Kind {
+	case "ensures":
+		if strings.Contains(out, "REPLAY clause violated") {
+			res.Status = "confirmed"
+			res.Reason = "the real function, run on the solver's input, violates the clause"
+		} else if strings.Contains(out, "REPLAY the call panicked") {
+			res.Status = "confirmed"
+			res.Reason = "the real function panics on the solver's input"
+		} else {
+			res.Reason = "the real function satisfies the clause on this input (the model relied on an abstraction: an assumed contract, abstract strings, or state the harness could not reproduce)"
+		}
+	case "safety":
+		if strings.Contains(out, "REPLAY the call panicked") {
+			res.Status = "confirmed"
+			res.Reason = "the real function panics on the solver's input"
+		} else {
+			res.Reason = "no panic on this input"
+		}
+	}
+	return res
+}
+
+// runReplayTest injects the test file into the package with -overlay and runs it.
+func runReplayTest(repo, pkgPath, testFile string) (string, bool) {
+	rel := strings.TrimPrefix(pkgPath, modPath)
+	rel = strings.TrimPrefix(rel, "/")
+	target := filepath.Join(repo, rel, "zz_verif_replay_test.go")
+	ov := map[string]any{"Replace": map[string]string{target: testFile}}
+	data, _ := json.Marshal(ov)
+	ovFile := testFile + ".overlay.json"
+	os.WriteFile(ovFile, data, 0o644)
+	defer os.Remove(ovFile)
+	ctx, cancel := context.WithTimeout(context.Background(), 240*time.Second)
+	defer cancel()
+	cmd := exec.CommandContext(ctx, "go", "test", "-overlay", ovFile, "-vet=off", "-count=1", "-timeout", "60s", "-run", "^TestVerifReplay$", "-v", "./"+rel)
+	cmd.Dir = repo
+	cmd.Env = append(os.Environ(), "GOFLAGS=-mod=mod", "GOPROXY=off", "GOSUMDB=off")
+	out, _ := cmd.CombinedOutput()
+	o := string(out)
+	ran := strings.Contains(o, "=== RUN   TestVerifReplay")
+	return o, ran
+}
+
+var _ = ast.NewIdent
